@@ -418,6 +418,16 @@ def rule_id_lookup(ctx, r):
     r.check(tracked.get("T") == tok("NEW") and tracked.get("A") == tok("ID_A") and tracked.get("B") == tok("ID_B"), con + "::record",
             "the id returned by the scheduler is recorded under the target's name (other entries untouched)",
             f"after the submission the tracked table is {tracked}: the new id must replace the target's old entry and nothing else", m.where)
+    from .evalhelpers import eval_backend_session
+    sess, err_s, _m = eval_backend_session(ctx)
+    if sess is None:
+        if "[not-modelled]" not in str(err_s):
+            r.violation(con + "::resubmitted-prerequisite", f"the calls the scheduler makes for a chain A -> B whose A runs again (status, submit A, submit B after A, cancel) fail: {err_s}", m.where)
+    else:
+        for d_ in sess:
+            r.violation(con + "::resubmitted-prerequisite", d_, m.where)
+        if not sess:
+            r.ok(con + "::resubmitted-prerequisite", "status / submit / cancel always answer for the job submitted last under a name, also within one process", m.where)
     r.check(states.get(tok("NEW")) == S("SUBMITTED"), con + "::mark", "the new id is marked SUBMITTED in memory",
             f"the new job id is not marked SUBMITTED after the submission (state table {states}): a later decision in the same run would submit the target again", m.where)
 
